@@ -35,6 +35,11 @@ def gen_shape(g, i):
         shape["title"] = tok.decode()
     if kind != "error" and g.random() < 0.2:
         shape["aslist"] = True
+    if kind in ("empty", "nolen-empty") and g.random() < 0.5:      # responses that never carry a body: HEAD, 204, 304
+        if g.random() < 0.5:
+            shape["method"] = "HEAD"
+        else:
+            shape["status"] = g.choice(["204 No Content", "304 Not Modified"])
     return shape
 
 
@@ -52,7 +57,7 @@ class C31(Check):
                            "ioflo.aio.tcp Client/Server/Incomer (+Tls classes over the stub)"],
                   "stub": ["socket module", "TLS record layer", "WSGI application (plan driven)"]}
     assumptions = ["responses are read from Patron.responses after the run (a client may queue requests and collect later)"]
-    required_probes = ["n>=3", "stream-after-stream", "error-shape", "tls", "progressive", "partial-delivery", "completed", "empty-item-with-length-0", "list-app"]
+    required_probes = ["n>=3", "stream-after-stream", "error-shape", "tls", "progressive", "partial-delivery", "completed", "empty-item-with-length-0", "list-app", "bodyless-without-length-then-another"]
     quick_runs = 6000
     thorough_runs = 300000
     shrink_fields = ["schedule", "shapes"]
@@ -109,6 +114,8 @@ class C31(Check):
             out.probe("empty-item-with-length-0")
         if any(s.get("aslist") for s in shapes):
             out.probe("list-app")
+        if any((s.get("method") == "HEAD" or s["status"][:3] in ("204", "304")) and s["kind"] == "nolen-empty" for s in shapes[:-1]):
+            out.probe("bodyless-without-length-then-another")
         if not plan["upfront"]:
             out.probe("progressive")
         app = PlanApp(shapes)
@@ -122,7 +129,7 @@ class C31(Check):
             def queue_next():
                 if queued[0] < n:
                     i = queued[0]
-                    pat.request(method="POST" if i % 2 else "GET", path="/r%d" % i, body=(b"body%d" % i) if i % 2 else None)
+                    pat.request(method=shapes[i].get("method") or ("POST" if i % 2 else "GET"), path="/r%d" % i, body=(b"body%d" % i) if i % 2 and not shapes[i].get("method") else None)
                     queued[0] += 1
 
             if plan["upfront"]:
